@@ -26,6 +26,11 @@ func c18Pool(thorough bool) []c18Val {
 	for _, k := range []int{-1, 0, 1, 2} {
 		vs = append(vs, c18Val{fmt.Sprint(k), fmt.Sprintf("i0_%d", k), "int", fmt.Sprint(k), 0})
 	}
+	// magnitudes whose difference does not fit in 64 bits
+	for _, k := range []string{"9223372036854775807", "-9223372036854775807", "5000000000000000000", "-5000000000000000000"} {
+		vs = append(vs, c18Val{"(" + k + ")", "i0_" + k, "int", k, 0})
+	}
+	vs = append(vs, c18Val{"MyInt.new(9223372036854775807)", "i1_9223372036854775807", "int", "9223372036854775807", 1})
 	for _, k := range []int{0, 1, 2} {
 		vs = append(vs, c18Val{fmt.Sprintf("MyInt.new(%d)", k), fmt.Sprintf("i1_%d", k), "int", fmt.Sprint(k), 1})
 	}
